@@ -54,6 +54,8 @@ def parseRecs : Nat → List String → List Rec × List String
     | "new" :: a :: rest => match nat? a with | some f => one (.new f) rest | none => ([.bad "new"], [])
     | "disc" :: a :: rest => match nat? a with | some f => one (.disc f) rest | none => ([.bad "disc"], [])
     | "trunc" :: a :: rest => match nat? a with | some f => one (.trunc f) rest | none => ([.bad "trunc"], [])
+    | "away" :: a :: rest => match nat? a with | some f => one (.away f) rest | none => ([.bad "away"], [])
+    | "gone" :: a :: rest => match nat? a with | some f => one (.gone f) rest | none => ([.bad "gone"], [])
     | "app" :: a :: b :: rest =>
       match nat? a, bytes? b with | some f, some d => one (.app f d) rest | _, _ => ([.bad "app"], [])
     | "ren" :: a :: b :: rest =>
@@ -83,7 +85,7 @@ def parseRecs : Nat → List String → List Rec × List String
 
 def renderRec : Rec → String
   | .new f => s!"new {f}" | .app f b => s!"app {f} {Hex.enc b}" | .ren f g => s!"ren {f} {g}"
-  | .trunc f => s!"trunc {f}" | .up => "up" | .disc f => s!"disc {f}" | .scan => "scan"
+  | .trunc f => s!"trunc {f}" | .away f => s!"away {f}" | .gone f => s!"gone {f}" | .up => "up" | .disc f => s!"disc {f}" | .scan => "scan"
   | .inp f o p => s!"in {f} {o} {ofBool p}" | .out f o q id => s!"out {f} {o} {q} {id}"
   | .ack f o id => s!"ack {f} {o} {id}" | .com f o id => s!"com {f} {o} {id}" | .eof f n => s!"eof {f} {n}"
   | .idle => "idle" | .stuck => "stuck" | .crash => "crash" | .died => "died"
@@ -91,7 +93,8 @@ def renderRec : Rec → String
   | .bad t => s!"bad:{t}"
 
 def recName : Rec → String
-  | .new _ => "new" | .app _ _ => "app" | .ren _ _ => "ren" | .trunc _ => "trunc" | .up => "up"
+  | .new _ => "new" | .app _ _ => "app" | .ren _ _ => "ren" | .trunc _ => "trunc" | .away _ => "away"
+  | .gone _ => "gone" | .up => "up"
   | .disc _ => "disc" | .scan => "scan" | .inp _ _ _ => "in" | .out _ _ _ _ => "out" | .ack _ _ _ => "ack"
   | .com _ _ _ => "com" | .eof _ _ => "eof" | .idle => "idle" | .stuck => "stuck" | .crash => "crash"
   | .died => "died" | .saved _ _ => "saved" | .bad _ => "bad"
@@ -109,6 +112,9 @@ structure R where
   inos : List Nat
   obs  : List (Nat × Offsets)     -- the offsets file found after the kill that ends this run
   ackedRun : List Ev := []        -- events acked in this run (`State.acked` spans all runs)
+  away : List Nat := []           -- files that left the watched directory
+  released : List Nat := []       -- away files whose job maintenance was seen to have released; the
+                                  -- model's `forget` is applied as soon as nothing of the file is in flight
 
 def savedPrefix : List Rec → List (Nat × Offsets)
   | .saved f o :: rest => (f, sortOffs o) :: savedPrefix rest
@@ -129,8 +135,15 @@ def autoSave (cfg : Cfg) (r : R) : R :=
       else r
     | none => r) r
 
+/-- apply the pending releases that have become enabled -/
+def settle (cfg : Cfg) (r : R) : R :=
+  r.released.foldl (fun r f =>
+    match step? cfg r.s (.forget f) with
+    | some s' => { r with s := s', released := r.released.filter (· != f) }
+    | none => r) r
+
 def app1 (cfg : Cfg) (r : R) (op : Op) : Option R :=
-  (step? cfg r.s op).map fun s' => autoSave cfg { r with s := s' }
+  (step? cfg r.s op).map fun s' => settle cfg (autoSave cfg { r with s := s' })
 
 /-- truncation detection (`processEOF`) when the file is shorter than the job's offset -/
 def prepare (cfg : Cfg) (r : R) (f : Nat) : Option R := do
@@ -159,6 +172,18 @@ def stepRec (cfg : Cfg) (t : Table) (r : R) (rest : List Rec) : Rec → Option R
     if b.getLast? = some NL then app1 cfg r (.append f b) else app1 cfg r (.appendPartial f b)
   | .ren f g => (app1 cfg r (.renameRotate f (1000 + g) g)).map fun r => { r with inos := r.inos ++ [g] }
   | .trunc f => app1 cfg r (.truncate f)
+  | .away f => some { r with away := f :: r.away }
+  | .gone f =>
+    -- maintenance released the job of a file whose name is gone: everything on the file must have
+    -- been read (no complete line left), else the job would have been resumed
+    match r.s.jobs f with
+    | none => some r
+    | some _ => do
+      let r ← prepare cfg r f
+      let fl ← r.s.files f
+      let before := r.s.inLog
+      let r ← readUpto cfg r f fl.content.length
+      if r.s.inLog == before then pure (settle cfg { r with released := f :: r.released }) else none
   | .up => (app1 cfg { r with obs := lookahead rest } .restart)
   | .disc f => app1 cfg r (.discover f)
   | .scan => app1 cfg r .scanDone
@@ -190,7 +215,9 @@ def stepRec (cfg : Cfg) (t : Table) (r : R) (rest : List Rec) : Rec → Option R
   | .idle =>
     if r.s.up && !r.s.panicked &&
        r.inos.all (fun f => match r.s.files f, r.s.jobs f with
-          | some fl, some j => j.w.curOffset == fl.content.length | _, _ => false) &&
+          | some fl, some j => j.w.curOffset == fl.content.length
+          | some _, none => r.away.contains f
+          | _, _ => false) &&
        r.s.inflight.all (fun e => r.s.delivered.contains e)
     then some r else none
   | .died =>
@@ -211,7 +238,7 @@ def stepRec (cfg : Cfg) (t : Table) (r : R) (rest : List Rec) : Rec → Option R
         match app1 cfg r (.commit e) with
         | some r' => if persistedOk r' then some r' else none
         | none => none
-    r?.bind fun r => (app1 cfg r .crash).map fun r => { r with ackedRun := [] }
+    r?.bind fun r => (app1 cfg r .crash).map fun r => { r with ackedRun := [], released := [] }
   | .saved _ _ => some r
   | .stuck => none
   | .bad _ => none
@@ -236,7 +263,7 @@ def handle (cmd : String) (args impl : List String) : Option (String × String) 
     let (recs, _summary) := parseRecs (impl.length + 1) impl
     let cfg := cfgOf t
     let lostS := renderLost (lost t (observe recs))
-    let m := match replay cfg t ⟨init, [], [], []⟩ 0 recs with
+    let m := match replay cfg t ⟨init, [], [], [], [], []⟩ 0 recs with
       | none => unwords (recs.map renderRec ++ [lostS])
       | some (i, rc) => s!"reject@{i} {recName rc} {lostS}"
     pure (m, verdict t recs)
